@@ -30,7 +30,9 @@ MIN_NONTRIVIAL = {"quick": 600, "thorough": 30000}
 PLAIN_HOLDERS = ["Jane Doe", "Example Corp. <https://example.com>", "Zoë Müller <z@example.org>", "ACME, Inc.", "名前 太郎",
                  "O'Neil & Sons", "The X Authors (see AUTHORS)", "Team [core]",
                  # a number in the name is part of the name, whatever it looks like
-                 "Studio 2000 GmbH", "Les Éditions 1789 S.A.", "Agenda 2030 Working Group", "4711 Kölnisch Wasser"]
+                 "Studio 2000 GmbH", "Les Éditions 1789 S.A.", "Agenda 2030 Working Group", "4711 Kölnisch Wasser",
+                 # decomposed characters stay as they were typed
+                 "Rene\u0301 Mu\u0308ller", "Ame\u0301lie <a@example.org>"]
 HOSTILE_HOLDERS = ["Jane */ Doe", "Ends with -->", "curly }", "x #} y", "a *) b", "tail :)", "q '/ r", "w --}} z", "e =# f", "u *# v",
                    "p --%> q", "Jane */", "trail #}"]
 LICS = ["MIT", "GPL-3.0-or-later", "Apache-2.0 OR MIT", "GPL-2.0-or-later WITH Classpath-exception-2.0", "LicenseRef-own-1.0",
@@ -70,6 +72,9 @@ def prior_content(rng, st, which):
     if which == "foreign":
         return "@@ SPDX-FileCopyrightText: 2001 Foreign Holder\n@@ SPDX-License-Identifier: 0BSD\n\nK1 code\n", \
             {"SPDX-FileCopyrightText: 2001 Foreign Holder"}, {"0BSD"}
+    if which == "utf16":
+        # text in an encoding the linter does not read: either refused, or annotated such that the linter finds the header
+        return "K1 code\nK2 more code\n", set(), set()
     if which == "sfx":
         # a script stub followed by packed data (self-extracting archive): text for whoever sniffs the first 512 bytes, NUL-ridden
         # for whoever looks at more - annotate and the linter must agree on what it is
@@ -112,7 +117,7 @@ def one(res, ctx, root, rng, t, forced_style, idx, sample=False):
     f = d / fname
     binary = t is not None and rng.random() < 0.08
     uncomm = t is not None and (t["uncommentable"] or t["empty"])
-    which = rng.choice(["empty", "code", "foreign", "own", "own", "longcr", "ignoreblock", "ignoreblock+own", "own+ignoreblock", "ignoreblock2", "ignoreblock-endstart", "sfx"]) if st is not None and not uncomm else rng.choice(["empty", "code"])
+    which = rng.choice(["empty", "code", "foreign", "own", "own", "longcr", "ignoreblock", "ignoreblock+own", "own+ignoreblock", "ignoreblock2", "ignoreblock-endstart", "sfx", "utf16"]) if st is not None and not uncomm else rng.choice(["empty", "code"])
     if binary:
         f.write_bytes(trees.BINARY_BLOB)
         prev_c, prev_l = set(), set()
@@ -120,8 +125,11 @@ def one(res, ctx, root, rng, t, forced_style, idx, sample=False):
         body, prev_c, prev_l = prior_content(rng, st, which) if st else (rng.choice(["", "K1 code\n"]), set(), set())
         if (uncomm or t is None and not forced_style) and (which in ("foreign", "own", "sfx") or which.startswith(("ignoreblock", "own+"))):
             body, prev_c, prev_l, which = "K1 code\n", set(), set(), "code"
-        with open(f, "w", encoding="utf-8", newline="") as fp:
-            fp.write(body)
+        if which == "utf16":
+            f.write_bytes(body.encode("utf-16"))
+        else:
+            with open(f, "w", encoding="utf-8", newline="") as fp:
+                fp.write(body)
     empty_body = (not binary) and f.stat().st_size == 0
     # ---- options
     args = []
@@ -211,6 +219,8 @@ def one(res, ctx, root, rng, t, forced_style, idx, sample=False):
     # --- classes that must succeed
     must = (not hostile) and template in FAITHFUL and r.exit_code != 2
     if template == "nocontrib" and contribs and not (holders or lics):
+        must = False
+    if which == "utf16" and not binary:
         must = False
     if must and not success:
         res.violation(f"plain-request-refused:{short}:{mode or 'default'}:{template or 'default'}", f"annotate did not succeed on a plain request ({desc})",
@@ -389,7 +399,7 @@ def run_case(case, ctx):
 
 
 NEEDED_CELLS = ["content:own", "content:foreign", "content:longcr", "content:ignoreblock", "content:ignoreblock+own", "content:own+ignoreblock",
-                "content:ignoreblock2", "content:ignoreblock-endstart", "content:binary", "content:sfx", "multi:with-files-that-cannot-be-annotated",
+                "content:ignoreblock2", "content:ignoreblock-endstart", "content:binary", "content:sfx", "content:utf16", "multi:with-files-that-cannot-be-annotated",
                 "template:custom-html", "template:nocontrib", "multi:with-dot-license-only-files"]
 
 
